@@ -14,6 +14,10 @@ CONSTANTS
   Fall = 1
   MaxRounds = 0
   MaxConns = 1
+  NoMonitor = FALSE
+  MaxRefuse = 0
+  MaxClose = 0
+  FailedDialLeaks = FALSE
   MaxHalf = 0
   WatcherLeaves = {}
   MaxToggles = 0
